@@ -94,6 +94,10 @@ func (h *history) caseLine(tag string, dir int) string {
 	var parts []string
 	for _, o := range h.ops {
 		if o.dir == dir {
+			if o.kind == 'x' {
+				parts = append(parts, fmt.Sprintf("%d:x", o.at))
+				continue
+			}
 			parts = append(parts, fmt.Sprintf("%d:%c:%d", o.at, o.kind, o.id))
 		}
 	}
@@ -143,7 +147,19 @@ func runHistory(h *history) ([]opResult, error) {
 					}
 					ch <- x
 				}()
-				if o.kind == 'a' {
+				if o.kind == 'x' {
+					// a stream that is opened and closed before its id header is written (what a dialler
+					// that fails between OpenStream and the header write leaves behind)
+					sess := p.sb
+					if o.dir == 1 {
+						sess = p.sa
+					}
+					st, err := sess.OpenStream()
+					if err == nil {
+						st.Close()
+					}
+					x.err = err
+				} else if o.kind == 'a' {
 					x.c, x.err = acceptor.Accept(o.id)
 				} else {
 					x.c, x.err = dialler.Dial(o.id)
@@ -156,6 +172,8 @@ func runHistory(h *history) ([]opResult, error) {
 					res[i].res = "panic"
 				case x.err != nil:
 					res[i].res = "err"
+				case x.c == nil:
+					res[i].res = "ok"
 				default:
 					res[i].res = "ok"
 					res[i].cross = exchange(x.c, o, i)
@@ -237,6 +255,7 @@ func motifs() []motif {
 		m("late-accept", hop{0, 'd', 0, 0, "unmatched"}, hop{6500, 'a', 0, 0, "unmatched"}),
 		m("late-dial", hop{0, 'a', 0, 0, "unmatched"}, hop{6500, 'd', 0, 0, "unmatched"}),
 		m("redial-after-accept", hop{0, 'd', 0, 0, "matched"}, hop{100, 'a', 0, 0, "matched"}, hop{1200, 'd', 0, 0, "unmatched"}),
+		m("abort-then-pair", hop{0, 'x', 0, 0, "any"}, hop{100, 'a', 0, 0, "matched"}, hop{200, 'd', 0, 0, "matched"}),
 		m("two-ids-crossed", hop{0, 'a', 0, 0, "matched"}, hop{0, 'a', 1, 0, "matched"}, hop{200, 'd', 1, 0, "matched"}, hop{300, 'd', 0, 0, "matched"}),
 	}
 }
@@ -284,6 +303,8 @@ func fixedHistories() []*history {
 		{name: "two-dials-then-fresh", ops: []hop{{0, 'd', 77, 0, "unmatched"}, {0, 'd', 77, 0, "unmatched"}, {6500, 'a', 78, 0, "fresh"}, {6600, 'd', 78, 0, "fresh"}}},
 		// D5b: second dial 60 ms later, no accept
 		{name: "dup-dial-60ms", ops: []hop{{0, 'd', 77, 0, "unmatched"}, {60, 'd', 77, 0, "unmatched"}, {6500, 'a', 78, 0, "fresh"}, {6600, 'd', 78, 0, "fresh"}}},
+		// a stream closed before its header: Run must go on serving (both directions)
+		{name: "aborted-stream", ops: []hop{{0, 'x', 0, 0, "any"}, {0, 'x', 0, 1, "any"}, {100, 'a', 9, 0, "fresh"}, {200, 'd', 9, 0, "fresh"}, {100, 'a', 9, 1, "fresh"}, {200, 'd', 9, 1, "fresh"}}},
 		{name: "dial-both-directions", ops: []hop{{0, 'd', 5, 0, "unmatched"}, {0, 'd', 5, 1, "unmatched"}, {6500, 'a', 6, 0, "fresh"}, {6600, 'd', 6, 0, "fresh"}, {6500, 'a', 6, 1, "fresh"}, {6600, 'd', 6, 1, "fresh"}}},
 	}
 }
@@ -418,6 +439,20 @@ func runBrokerScenario(o *out, tag, replay string, gen func(r *rng) (plain, hook
 		setTwDelay(0)
 	}
 	if tag == "C09" {
+		// the gRPC broker's part of the property: duplicate accepts nobody dials and unmatched dials, then a
+		// fresh pair in each direction on the same connection (case lines carry the C07 tag: same model)
+		gms := grpcMotifs()
+		var ghs []*history
+		for i := 0; i < 4; i++ {
+			q := r.fork(uint64(7000 + i))
+			ghs = append(ghs, compose(fmt.Sprintf("gl%d", i), q, []motif{gms[10], gms[6], gms[0]}, 2+q.intn(2), true))
+		}
+		gres := make([][]opResult, len(ghs))
+		gerrs := make([]error, len(ghs))
+		parallel(len(ghs), len(ghs), func(i int) { gres[i], gerrs[i] = runGrpcHistory(ghs[i]) })
+		for i, h := range ghs {
+			emitGrpcHistory(o, h, gres[i], gerrs[i])
+		}
 		// close_ends_goroutines: all pairs are closed; a few seconds later no broker goroutine remains
 		time.Sleep(6500 * time.Millisecond)
 		n := muxGoroutines()
